@@ -581,6 +581,16 @@ func c12Run(t *rapid.T, st *kvh.Stats) {
 }
 
 func init() {
+	replayers["c12fuzz"] = func(_ *kvh.Case, raw []byte) *kvh.Fail {
+		var c struct {
+			Target  string `json:"target"`
+			Content []byte `json:"content"`
+		}
+		if err := jsonUnmarshal(raw, &c); err != nil {
+			return &kvh.Fail{Sig: "harness-bad-case", Msg: err.Error()}
+		}
+		return replayFuzzOpen(c.Target, c.Content)
+	}
 	replayers["c12"] = func(_ *kvh.Case, raw []byte) *kvh.Fail {
 		var c c12Case
 		if err := jsonUnmarshal(raw, &c); err != nil {
